@@ -32,9 +32,23 @@ def run(prop, tier, replay=None):
     with vlib.scratch("verif-c02-") as work:
         binary = vlib.build_test_binary(work, "otter")
         ex = cf.ThreadPoolExecutor(max_workers=vlib.NCPU)
+        recorded = None
         if replay:
             with open(replay) as f:
                 scen = json.load(f)
+            if scen and scen[0].get("recorded_events"):
+                recorded = scen[0]["recorded_events"]
+                linp = os.path.join(work, "recorded.ndjson")
+                lintrace.write_histories(linp, [recorded])
+                n, hw, tl = lintrace.check(work, linp, "recorded")
+                vlib.log("recorded history: %d events, search reached %d" % (n, hw))
+                if hw <= n:
+                    print("VIOLATION property=%s replay=%s" % (prop, replay))
+                    vlib.log("  the recorded history is not linearizable: stuck at event", recorded[hw - 1] if hw - 1 < len(recorded) else hw)
+                    return 1
+                return 0
+            for sc in scen:
+                sc.pop("recorded_events", None)
         else:
             scen = scenarios(quick, seed)
         nshard = min(vlib.NCPU, max(1, len(scen) // 4))
@@ -90,8 +104,9 @@ def run(prop, tier, replay=None):
             if hw <= n and prop == "C02":
                 bad = next((k for k, (a, b) in enumerate(spans) if a <= hw <= b), len(spans) - 1)
                 cov["not_linearizable"] += 1
-                path = vlib.save_replay(prop, "c02-%s-%d" % (part[bad]["policy"], part[bad]["seed"]), [part[bad]])
                 ev = [e for e in recs[bad]["events"]]
+                # the recorded history is the evidence (free-running schedules are not reproducible from the seed)
+                path = vlib.save_replay(prop, "c02-%s-%d" % (part[bad]["policy"], part[bad]["seed"]), [dict(part[bad], recorded_events=ev)])
                 off = hw - spans[bad][0]
                 violations.append(("C02.not_linearizable", "search stuck at event %s" % (ev[off] if 0 <= off < len(ev) else off), path))
         ex.shutdown()
